@@ -209,6 +209,10 @@ def rule_row_shape(ctx: Ctx, repo: Repo) -> None:
 def rule_hidden_builtins(ctx: Ctx, repo: Repo) -> None:
     mod = repo.module(ENC)
     tbl = mod.constants.get("_HIDDEN_BUILTIN_TYPES")
+    if tbl is None and "_HIDDEN_BUILTIN_TYPES" in mod.imports:
+        m2, _, n2 = mod.imports["_HIDDEN_BUILTIN_TYPES"].rpartition(".")
+        if m2 in repo.modules:
+            tbl = repo.modules[m2].constants.get(n2)  # the table lives in another module of the package
     if not isinstance(tbl, ast.Dict):
         raise AnalysisError("_HIDDEN_BUILTIN_TYPES is not a dict literal")
     tymod = repo.module("monkeytype.typing")
